@@ -54,3 +54,9 @@ package conn
 //@   requires rb != nil
 //@   nopanic
 //@   modifies *
+
+// The neighbours a remote peer reported in its handshake (used by the scheduler for the
+// mutual-connection limit, C16).
+//@ func PendingConn.RemoteBitfields
+//@   requires pc != nil && pc.handshake != nil
+//@   ensures result == pc.handshake.remoteBitfields
